@@ -23,7 +23,8 @@ use vcommon::arg_or;
 use crate::keyspace::decode_set;
 use crate::model::tombstones;
 
-const KEYSPACES: [&str; 2] = ["first", "second"];
+// (related as strings: names are all a backend or a node can tell keyspaces by)
+const KEYSPACES: [&str; 2] = ["first", "first-kv"];
 
 fn report(set: &datacake_crdt::OrSWotSet<2>) -> (Value, Value) {
     let mut live: Vec<(u64, HLCTimestamp)> = set.verif_project().entries;
